@@ -441,6 +441,11 @@ class ListenerItem(ListenerBase):
                 if active is not None:
                     for name, type in active:
                         getattr(self, type)(old, name, True)
+                    if self.name[-1:] == "*" and not self.is_anytrait:
+                        # Also stop listening for traits added to the object:
+                        old.on_trait_change(
+                            self._new_trait_added, "trait_added", remove=True
+                        )
             except TypeError:
                 # An error can occur if 'old' is a list or other object for
                 # which a weakref cannot be created and used an a key for
